@@ -113,7 +113,7 @@ Effect(fe, op, st) ==
          IF PerDocCommit(fe) THEN AddAndCommitEach(st, op.docs) ELSE QueueAdds(st, op.docs)
     [] op.kind = "delete" -> [st EXCEPT !.wal = @ \o DelOps(IdsOf(op))]
     [] op.kind = "commit" -> CommitState(st)
-    [] op.kind \in {"compact", "search"} -> st
+    [] op.kind \in {"compact", "search", "restart"} -> st   \* restart: the process goes away, the directory stays
 
 (* Whether the call must report success. *)
 ExpectedOk(fe, op, refOk) ==
